@@ -240,7 +240,7 @@ class Inference(object):
         bn = self.model.copy()
         for cpd in virtual_evidence:
             var = cpd.variables[0]
-            new_var = "__" + var
+            new_var = "__" + str(var)
             bn.add_edge(var, new_var)
             values = compat_fns.get_compute_backend().vstack(
                 (cpd.values, 1 - cpd.values)
